@@ -740,6 +740,15 @@ def render_bound(fam, n):
         if k == 0:
             return b"int c = " + pfx.encode() + b"'" + body + b"';\n", []
         return b"const void *s = " + pfx.encode() + b'"' + body + b'";\n', []
+    if fam == "arity":
+        e, na, body, v, np_ = n % 2, (n // 2) % 8, (n // 16) % 3, (n // 48) % 2, n // 96
+        named = ["p%d" % i for i in range(np_)]
+        params = named + (["..."] if v else [])
+        use = named + (["__VA_ARGS__"] if v else [])
+        text = [" ".join(use), " ".join("#" + u for u in use), "0"][body] or "0"
+        first = ", ".join(["1"] * np_ + (["+ 2", "3"] if v else []))
+        second = ", ".join([("" if e else "1")] * na)
+        return "#define F(%s) %s\nF(%s) F(%s)\n" % (", ".join(params), text, first, second), ["-E"]
     if fam == "guard":
         return GUARDS[n - 1] + "\n", []
     if fam == "margs":
@@ -821,6 +830,10 @@ def part_bounds(ctx, bins, models):
             if c["class"] == 0 or c["fam"].startswith("desc_") or c["fam"] == "margs":
                 audit = audit_class(data, c["class"] == 0)
         obs, sig, err = observe(exe, data, args)
+        if c["fam"] == "arity" and obs in (0, 1):
+            o2, s2, e2 = observe(bins.plain, data, args)     # stale heap contents differ between the two allocators
+            if o2 not in (0, 1) or o2 != obs:
+                obs, sig, err = (o2, s2, e2) if o2 not in (0, 1) else ("crash", "bounds:arity:plain-differs:%s-vs-%s" % (obs, o2), e2)
         return c, data, args, audit, obs, sig, err, deep
 
     res = vlib.pmap(one, cases, workers=16)
@@ -884,6 +897,8 @@ SEEDS = [
     ("fixed-51bc936-bitfield-width-sentinel", b"struct S { int : -1ull; int a; } s; int f(void) { return s.a; }\n", []),
     ("fixed-51bc936-bitfield-width-sentinel-named", b"struct S { int x : -1ull; } s;\n", []),
     # regression inputs of defects repaired by fix: commits in /repo (must stay quiet)
+    ("fixed-328642d-enum-fixed-type-then-definition", b"enum E : long; enum E { A, B }; enum E x = B;\n", []),
+    ("fixed-328642d-enum-definition-adds-fixed-type", b"enum E; enum E : long { A, B };\n", []),
     ("fixed-0429f13-swap-reassoc-clobber", b"int a[4]; long p = 2 + (long)&a[1];\n", []),
     ("fixed-4ba409c-expandfunc-uaf", b"#define f(a) a\n#define t(a) a\nt(t(f)x)\n", ["-E"]),
     ("fixed-f515711-duplicate-label", b"void f(void) { x: x: ; }\n", []),
